@@ -1,64 +1,87 @@
-(* C13 others_as_if_silent: where it fails.
-   (a) Before 1526470 SimLifecycle::at_sim_start swept all stages over all modules without looking
-       at is_active ([start_one_pinned]); the real crate was checked to agree with this on every
-       generated script.  A module with two stages that panics in at_sim_start(0) after spawning a
-       task was still given at_sim_start(1), whose yield polled the task: it asked for a restart
-       and sent, and module 1 received messages it does not receive when module 0 falls silent.
-       With the repaired sweep (coq/Life/Model.v) the same script satisfies the statement.
-   (b) Still false, of the model and of the code: a module whose stereotype catches panics and that
-       has several stages -- ModuleRef::module_restart goes on with the later stages after a caught
-       panic in an earlier one. *)
+(* C13 others_as_if_silent: the pinned behaviours that violated it, both repaired since.
+   [trace_p sfix rfix]: the model with the start-up sweep as before (false) / after (true) 1526470 and the
+   restart stage loop as before / after 9e87d89; [trace_p true true] is [trace] of coq/Life/Model.v.  The
+   real crate was checked to agree with the pinned variants at the respective commits on the witnesses.
+   (a) Before 1526470 SimLifecycle::at_sim_start swept all stages over all modules without looking at
+       is_active.  A module with two stages that panics in at_sim_start(0) after spawning a task was still
+       given at_sim_start(1), whose yield polled the task: it asked for a restart and sent, and module 1
+       received messages it does not receive when module 0 falls silent.
+   (b) Before 9e87d89 ModuleRef::module_restart went on with the later stages after a panic that the
+       stereotype catches (Harness::catch returns Ok): same effect inside a restart event. *)
 From Coq Require Import List NArith Bool.
 From DesVerif Require Import Common.Fuel Life.Model Life.Events Life.Silent.
 Import ListNotations.
 Open Scope N_scope.
 
-(* the pinned start-up sweep *)
-Definition start_one_pinned (sc : script) (stage m : N) (acc : world * list erec) : world * list erec :=
+Definition start_one_p (sfix : bool) (sc : script) (stage m : N) (acc : world * list erec) : world * list erec :=
   let '(w, tr) := acc in
-  if stage <? c_stages (cfg sc m) then
+  if (stage <? c_stages (cfg sc m)) && (negb sfix || active (w_mod w m)) then
     let '(w', l) := around sc 0 m (fun s => fst (at_sim_start (nmods sc) (cfg sc m) 0 m stage s)) w in
     (w', tr ++ [{| e_kind := KStart stage m; e_time := 0; e_items := l |}])
   else acc.
 
-Definition sim_start_pinned (sc : script) (w : world) : world * list erec :=
-  fold_left (fun acc stage => fold_left (fun acc m => start_one_pinned sc stage m acc) (mods sc) acc)
+Definition sim_start_p (sfix : bool) (sc : script) (w : world) : world * list erec :=
+  fold_left (fun acc stage => fold_left (fun acc m => start_one_p sfix sc stage m acc) (mods sc) acc)
             (stage_list (max_stage sc)) (w, []).
 
-Definition trace_pinned (sc : script) : list erec :=
-  let '(w0, tr0) := sim_start_pinned sc (init_world sc) in
+Definition module_restart_pinned (k : N) (c : modcfg) (now m : N) (s : xs) : xs :=
+  let s0 := on_w (fun w => set_mod w m (set_active (w_mod w m) true)) s in
+  fst (fold_left (fun (acc : xs * bool) stage => if snd acc then acc else at_sim_start k c now m stage (fst acc))
+                 (stage_list (c_stages c)) (s0, false)).
+
+Definition process_p (rfix : bool) (sc : script) (w : world) (t : N) (ev : fev) : world * list item :=
+  match ev with
+  | EvRestart m => if rfix then process sc w t ev
+                   else around sc t m (module_restart_pinned (nmods sc) (cfg sc m) t m) w
+  | _ => process sc w t ev
+  end.
+
+Definition loop_step_p (rfix : bool) (sc : script) (st : lstate) : lstate + lstate :=
+  let '(w, now, tr) := st in
+  match fes_fetch (w_fes w) with
+  | None => inr st
+  | Some (t, ev, f) =>
+    let '(w', l) := process_p rfix sc (set_fes w f) t ev in
+    inl (w', t, tr ++ [{| e_kind := KLoop ev; e_time := t; e_items := l ++ [ISample t (mask sc w')] |}])
+  end.
+
+Definition trace_p (sfix rfix : bool) (sc : script) : list erec :=
+  let '(w0, tr0) := sim_start_p sfix sc (init_world sc) in
   let boot := {| e_kind := KBoot; e_time := 0; e_items := [ISample 0 (mask sc w0)] |} in
-  match iter_until (fuel sc) (loop_step sc) (w0, 0, tr0 ++ [boot]) with
+  match iter_until (fuel sc) (loop_step_p rfix sc) (w0, 0, tr0 ++ [boot]) with
   | inr (w, now, tr) => tr ++ snd (sim_end sc now w)
   | inl (_, _, tr) => tr
   end.
 
-(* corpus/C13/multistage_panic.txt, line 1 *)
-Definition w_m0 : modcfg := {| c_catch := false; c_stages := 2; c_bud := 6; c_start := [[APanic]; []];
-  c_msg := [[ALog 1]]; c_tasks := [[ARestartIn 1; ASend false 3 0]]; c_end := [] |}.
+Definition silent_ok (tr : script -> list erec) (sc : script) (m : N) : Prop :=
+  others m (items (events_of (tr sc))) = others m (items (events_of (tr (quieten m sc)))).
+
 Definition w_m1 : modcfg := {| c_catch := false; c_stages := 1; c_bud := 6; c_start := [[]];
   c_msg := [[ALog 2]]; c_tasks := []; c_end := [] |}.
+
+(* (a) corpus/C13/multistage_panic.txt, line 1 *)
+Definition w_m0 : modcfg := {| c_catch := false; c_stages := 2; c_bud := 6; c_start := [[APanic]; []];
+  c_msg := [[ALog 1]]; c_tasks := [[ARestartIn 1; ASend false 3 0]]; c_end := [] |}.
 Definition w_sc : script := {| s_mods := [w_m0; w_m1]; s_inj := [] |}.
 
-Lemma C13_pinned_others_as_if_silent_refuted :
-  exists sc m, c_catch (cfg sc m) = false /\
-    others m (items (events_of (trace_pinned sc))) <> others m (items (events_of (trace_pinned (quieten m sc)))).
-Proof. exists w_sc, 0. split; [reflexivity|]. vm_compute. discriminate. Qed.
+Lemma C13_pinned_sweep_refuted : exists sc m, c_catch (cfg sc m) = false /\ ~ silent_ok (trace_p false false) sc m.
+Proof. exists w_sc, 0. split; [reflexivity|]. unfold silent_ok. vm_compute. discriminate. Qed.
 
-(* the repaired sweep: the same script now satisfies the statement, non-vacuously *)
-Example C13_repaired_on_witness :
-  others 0 (items (events_of (trace w_sc))) = others 0 (items (events_of (trace (quieten 0 w_sc)))) /\
-  others 0 (items (events_of (trace_pinned w_sc))) <> others 0 (items (events_of (trace w_sc))).
-Proof. vm_compute. split; [reflexivity|discriminate]. Qed.
-
-(* (b): the hypothesis of C13_others_as_if_silent_partial cannot be dropped.  Module 0 catches panics and
-   has two stages; its first incarnation asks for a restart, the restart's at_sim_start(0) panics (caught),
-   at_sim_start(1) of the same restart polls the task spawned before the panic, which asks for another
-   restart and sends: module 1 handles a message at t = 13 that it never sees when module 0 falls silent. *)
+(* (b) corpus/C13/multistage_panic.txt, line 3: module 0 catches panics and has two stages; its first incarnation
+   asks for a restart, the restart's at_sim_start(0) panics (caught), at_sim_start(1) of the same restart polls the
+   task spawned before the panic, which asks for another restart and sends: module 1 handles a message at t = 13 *)
 Definition c_m0 : modcfg := {| c_catch := true; c_stages := 2; c_bud := 9; c_start := [[ARestartIn 2]; [APanic]; []];
   c_msg := [[ALog 1]]; c_tasks := [[ARestartIn 3; ASend false 4 0]]; c_end := [] |}.
 Definition c_sc : script := {| s_mods := [c_m0; w_m1]; s_inj := [] |}.
 
-Lemma C13_catching_multistage_refuted :
-  exists sc m, others m (items (events_of (trace sc))) <> others m (items (events_of (trace (quieten m sc)))).
-Proof. exists c_sc, 0. vm_compute. discriminate. Qed.
+Lemma C13_pinned_restart_refuted : exists sc m, ~ silent_ok (trace_p true false) sc m.
+Proof. exists c_sc, 0. unfold silent_ok. vm_compute. discriminate. Qed.
+
+(* the repaired code: [trace_p true true] is the model, both witnesses satisfy the statement (as every script
+   does: Properties/C13.v), and they do so non-vacuously: the runs differ from the pinned ones *)
+Example C13_repaired_on_witnesses :
+  trace_p true true w_sc = trace w_sc /\ trace_p true true c_sc = trace c_sc /\
+  silent_ok trace w_sc 0 /\ silent_ok trace c_sc 0 /\
+  others 0 (items (events_of (trace_p false false w_sc))) <> others 0 (items (events_of (trace w_sc))) /\
+  others 0 (items (events_of (trace_p true false c_sc))) <> others 0 (items (events_of (trace c_sc))).
+Proof. unfold silent_ok. vm_compute. repeat split; try reflexivity; discriminate. Qed.
